@@ -163,7 +163,7 @@ def reference(scn, trace):
     step_thread = None
     n = 0
     verdict = None
-    clients = set(range(1, len(scn.scripts) + 1))
+    clients = set()
     for l in trace:
         n += 1
         t = l.split()
@@ -179,7 +179,9 @@ def reference(scn, trace):
                 completed[pending[fut]] = n
         elif l.startswith("E "):
             tid, ev = int(t[1]), t[2]
-            if ev == "rec-new":
+            if ev == "create" and tid == 0:
+                clients.add(int(t[3][1:]))
+            elif ev == "rec-new":
                 a = int(t[3])
                 news[a] = news.get(a, 0) + 1
                 if a in starts:
